@@ -15,10 +15,12 @@ import Driver.TlsPolicyD
 import Driver.RelayD
 import Driver.LifeD
 import Driver.UtlsD
+import Driver.TimerD
 
 def main (args : List String) : IO UInt32 := do
   match args with
   | ["attrmap"] => Driver.AttrMapD.main; return 0
+  | ["timer"] => Driver.TimerD.main; return 0
   | ["life"] => Driver.LifeD.main; return 0
   | ["utls"] => Driver.UtlsD.main; return 0
   | ["relay"] => Driver.RelayD.main; return 0
